@@ -444,4 +444,3 @@ func (a *c11) r3pass(fn *types.Func) {
 		c.OK(a.r3name, cons, fd.Pos(), "recursion form: %d returns; each is either the root case (identity test against the root field) or recurses on %s.parent after storing the node's envelope into its own entry", nRet, pv.Name())
 	}
 }
-
